@@ -615,7 +615,7 @@ func (env *SpecEnv) call(e *SExpr) (SpecVal, error) {
 		at := env.term(args[0])
 		tn := e.Args[1].Name
 		if gt, err := env.resolveType(tn); err == nil {
-			tn = gt.String()
+			tn = canonType(gt).String()
 		}
 		id := x.smt.typeID(tn)
 		return SpecVal{V: tv(fmt.Sprintf("(and ((_ is APtr) %s) (= (atype %s) %d))", at, at, id)), Go: boolT}, nil
